@@ -16,7 +16,7 @@ import (
 )
 
 type chunkCase struct {
-	Part  string `json:"part"` // "f"
+	Part  string `json:"part"`     // "f"
 	Msgs  int    `json:"messages"` // messages of 1 MiB handed to the peer before the flush
 	Fail  []bool `json:"fail"`     // Fail[i]: the i-th transport call of the flush returns an error
 	Calls int    `json:"calls"`    // transport calls the flush needs (filled by the enumeration, informative)
